@@ -88,6 +88,15 @@ BELaw == /\ \A c \in ValidCodes("BE") : Valid("BE", Tail(c)) /\ \A e \in Subst(T
          /\ BENineBad # {} /\ \A c \in BENineBad : ~Valid("BE", c)
          /\ \E c \in ValidCodes("BE") : c[3] = Dg(0)
 ASSUME BELaw
+\* GB: numbers at the ends of the ranges in which each of the two schemes was issued, with the check digits either
+\* scheme would give them
+GBt(c) == WSum(c, <<8, 7, 6, 5, 4, 3, 2>>, 1, 7) + D(c, 8) * 10 + D(c, 9)
+GBRange == {c \in {b \o k : b \in Prog(7, 99994, 12) \cup Prog(7, 999994, 12) \cup Prog(7, 123456, 12) \cup Prog(7, 555550, 12) \cup Prog(7, 9489995, 12)
+                                  \cup Prog(7, 9699995, 12) \cup Prog(7, 9989995, 12) \cup Prog(7, 1, 6), k \in Checks2} :
+               GBt(c) % 97 = 0 \/ (GBt(c) + 55) % 97 = 0}
+GBCases == {Case("GB", c, c, Valid("GB", c), "range-boundary") : c \in GBRange}
+ASSUME \E c \in GBRange : Valid("GB", c)
+ASSUME \E c \in GBRange : ~Valid("GB", c)
 \* FR: bare SIRENs (Luhn digit found by search), each promoted to the VAT number, and every single-digit change of them
 Sirens == {c \in {b \o k : b \in Bodies(8) \cup Prog(8, 35600000, (IF Scope = "quick" THEN 12 ELSE 60)), k \in Checks1} : IsSiren(c)}
 SirenCases == UNION {{Case("FR", c, Normalize("FR", c), TRUE, "siren")}
@@ -96,6 +105,6 @@ SirenCases == UNION {{Case("FR", c, Normalize("FR", c), TRUE, "siren")}
 SirenLaw == \A c \in Sirens : /\ Valid("FR", Normalize("FR", c)) /\ Len(Normalize("FR", c)) = 11
                               /\ \A e \in Subst(c) : ~IsSiren(e) /\ Normalize("FR", e) = e /\ ~Valid("FR", e)
 ASSUME SirenLaw
-Export == IF "OUT" \in DOMAIN IOEnv THEN ndJsonSerialize(IOEnv.OUT, SetToSeq(Cases \cup SirenCases \cup BECases)) ELSE TRUE
+Export == IF "OUT" \in DOMAIN IOEnv THEN ndJsonSerialize(IOEnv.OUT, SetToSeq(Cases \cup SirenCases \cup BECases \cup GBCases)) ELSE TRUE
 ASSUME Export
 =============================================================================
